@@ -101,6 +101,9 @@ class SimServer:
         # knobs set by scenarios ------------------------------------------
         self.fault_weights = [1, 0, 0, 0, 0, 0, 0, 0]
         self.fault_hook = None         # f(conn, decoded, scope) -> kind | None
+        self.shape_hook = None         # f(status, code, text, scope) -> (code, text, lit_text) | None
+        self.lit_hook = None           # f(kind, value) -> bool | None: force literal/quoted encoding
+        self._force_lit_text = None
         self.greeting_hook = None      # f(conn) -> kind | None  ('refuse','bye','silent','close','garbage','nook', None)
         self.tls_hook = None           # f(conn) -> 'ok' | 'sslerror' | 'certerror' | 'timeout' | 'eof'
         self.postcaps_hook = None      # f(conn) -> None | 'silent' | 'close' | 'bye' | 'garbage' | 'no'
@@ -136,7 +139,13 @@ class SimServer:
         ch = self.ch
 
         def lit(kind, val):
+            if self.lit_hook is not None:
+                forced = self.lit_hook(kind, val)
+                if forced is not None:
+                    return forced
             if kind == "text":
+                if self._force_lit_text is not None:
+                    return self._force_lit_text
                 if not self.status_variation:
                     return False
             elif not self.data_variation:
@@ -168,6 +177,15 @@ class SimServer:
 
     def _status_shape(self, status, code, text, scope):
         """Apply shape choices to a status line.  Returns (code, text)."""
+        self._force_lit_text = None
+        if self.shape_hook is not None:
+            forced = self.shape_hook(status, code, text, scope)
+            if forced is not None:
+                code, text, self._force_lit_text = forced
+                key = (status, None if code is None else (code[0], code[1] is not None),
+                       None if text is None else ("empty" if text == b"" else ("ml" if b"\n" in text else "t")))
+                self.shape_counts[key] = self.shape_counts.get(key, 0) + 1
+                return code, text
         if not self.status_variation:
             return code, text
         ch = self.ch
